@@ -184,8 +184,11 @@ func randShapeFor(r *rand.Rand, total int, plain bool) Shape {
 			case 2:
 				s.PadFlag, s.HdrPad, s.PktPad = true, 1+r.IntN(30), 1+r.IntN(30)
 			case 3:
-				if r.IntN(3) == 0 {
+				switch r.IntN(4) {
+				case 0:
 					s.PktPad = 1 + r.IntN(8) // padding bytes without the flag: pion still appends them
+				case 1:
+					s.HdrPad = 1 + r.IntN(8)
 				}
 			}
 		}
